@@ -47,19 +47,19 @@ ASSUMPTIONS = ["mask[i,j,k]: axis 0 = x, 1 = y, 2 = z; centre/radii given per ax
 
 CLASSES = ["sphere_interior", "sphere_boundary", "sphere_defaults", "cyl_interior", "cyl_z_crossing", "cyl_boundary_xy",
            "ell_even", "ell_ties", "ell_eccentric", "s_shell", "e_shell", "named",
-           "alg_pair", "alg_dtypes", "alg_list", "alg_soft", "alg_files", "alg_real_outputs"]
+           "alg_pair", "alg_dtypes", "alg_list", "alg_soft", "alg_files", "alg_real_outputs", "ell_near_miss", "history"]
 
 KEY_ECC = "ellipsoid-eccentric-core"     # mechanism key of the OPEN finding in KNOWN_FINDINGS.txt; see classify_eccentric
 
 
 def plan(tier):
     if tier == "quick":
-        return dict(n_cases=1800, shards=2, classes=CLASSES, timeout_s=600,
+        return dict(n_cases=2000, shards=2, classes=CLASSES, timeout_s=600,
                     min_evals={"sphere": 2000, "cylinder": 2000, "ellipsoid": 1500, "s_shell": 120, "e_shell": 90, "generate_mask": 60,
                                "soft_range": 1500, "soft_core": 700, "union": 1500, "intersection": 1500, "subtraction": 800,
                                "difference": 500, "algebra_inputs": 6000, "algebra_range": 6000, "shell_relational": 150,
                                "name_vs_direct": 80, "file_vs_array": 250}, min_known={"ellipsoid-eccentric-core": 10})
-    return dict(n_cases=43200, shards=16, classes=CLASSES, timeout_s=3000,
+    return dict(n_cases=48000, shards=16, classes=CLASSES, timeout_s=3000,
                 min_evals={"sphere": 25000, "cylinder": 22000, "ellipsoid": 20000, "s_shell": 3500, "e_shell": 2500, "generate_mask": 1700,
                            "soft_range": 38000, "soft_core": 17000, "union": 45000, "intersection": 45000, "subtraction": 22000,
                            "difference": 16000, "algebra_inputs": 170000, "algebra_range": 170000, "shell_relational": 4000,
@@ -180,12 +180,14 @@ def _ell_post(ctx, A, old, result):
     if d["sigma"] == 0:
         exp, lhs, rhs = O.ellipsoid(d["N"], d["c"], d["radii"])
         _count(ctx, "ellipsoid_voxels_exactly_on_surface", int((lhs == rhs).sum()))
+        _count(ctx, "ellipsoid_voxels_within_2.5e-7_of_the_surface_but_not_on_it", O.count_near(lhs, rhs))
         w = O.compare_hard(result, d["N"], exp)
         if w is not None:
             w.update(function="ellipsoid_mask", box=d["N"], centre=d["c"], radii=d["radii"])
             if "voxel" in w and w.get("what") == "membership":
                 w["lhs_over_rhs"] = float(lhs[w["voxel"]]) / float(rhs)
                 w["exactly_on_surface"] = bool(lhs[w["voxel"]] == rhs)
+                w["lhs_minus_rhs"], w["rhs"] = int(lhs[w["voxel"]] - rhs), int(rhs)
         ctx.check("ellipsoid", w is None, w)
     else:
         fn = "ellipsoid_mask"
@@ -505,6 +507,13 @@ def _radius(rng, N, kind):
     return int(rng.integers(hi, hi + 21))          # beyond the box
 
 
+def _odd_float(rng, r):
+    """an integral radius as float, with a fraction, or one ulp next to an integer / half-integer (representability boundaries)"""
+    r = float(int(r))
+    return float(rng.choice([r, r + 0.5, r + 0.25, np.nextafter(r, np.inf), np.nextafter(r, 0.0), np.nextafter(r + 0.5, 0.0),
+                             np.nextafter(r + 0.5, np.inf)]))
+
+
 def _sigma(rng):
     s = float(rng.choice(SIGMAS)) if rng.random() < 0.7 else round(float(rng.uniform(0.2, 3.0)), 2)
     if s in (1.0, 2.0, 3.0) and rng.random() < 0.3:
@@ -569,8 +578,8 @@ def gen_shape(rng, cls, tier):
             N = _box(rng)
             ck = str(rng.choice(["corner", "face", "edge", "anywhere"]))
             case["r"] = _radius(rng, N, str(rng.choice(["medium", "large", "beyond"])))
-        if case["r"] is not None and rng.random() < 0.1:
-            case["r"] = float(case["r"]) + float(rng.choice([0.0, 0.5, 0.25]))
+        if case["r"] is not None and rng.random() < 0.15:
+            case["r"] = _odd_float(rng, case["r"])
         case["calls"] = _soft_calls(rng)
     elif cls.startswith("cyl"):
         case["fn"] = "cylinder"
@@ -588,6 +597,10 @@ def gen_shape(rng, cls, tier):
             ck = str(rng.choice(["corner", "face", "edge"]))
             case["r"] = _radius(rng, N[:2], str(rng.choice(["medium", "large", "beyond"])))
             case["h"] = int(rng.integers(1, 2 * N[2]))
+        if rng.random() < 0.1:
+            case["r"] = _odd_float(rng, case["r"])
+        if rng.random() < 0.06 and case["h"] >= 2:
+            case["h"] = float(rng.choice([float(case["h"]), float(np.nextafter(case["h"], 0)), float(np.nextafter(case["h"], np.inf))]))
         u = rng.random()
         if u < 0.12:
             case["r"] = None                       # documented default: half of the smaller of the x and y sizes
@@ -614,6 +627,20 @@ def gen_shape(rng, cls, tier):
             ck = str(rng.choice(["default", "interior", "anywhere"]))
             t = TIE_RADII[int(rng.integers(0, len(TIE_RADII)))]
             case["radii"] = tuple(int(v) for v in rng.permutation(t))
+        elif cls == "ell_near_miss":
+            # a lattice point that misses the surface by < 2.5e-7 (relative), found in exact integer arithmetic
+            radii, off, sign, rel = O.near_miss(O.NEAR_MISS[int(rng.integers(0, len(O.NEAR_MISS)))])
+            p = [int(v) for v in rng.permutation(3)]
+            radii, off = tuple(radii[k] for k in p), tuple(off[k] for k in p)
+            N, c = [], []
+            for a in range(3):
+                need = off[a] + 1
+                n = min(48, max(6, need + need % 2) + 2 * int(rng.integers(0, 5)))
+                N.append(n)
+                c.append(int(rng.integers(0, n - off[a])) if rng.random() < 0.5 else int(rng.integers(off[a], n)))
+            N = tuple(N)
+            case["radii"], case["centre"], ck = radii, tuple(c), "near_miss"
+            case["near"] = {"offset": off, "side": "outside" if sign > 0 else "inside", "relative_distance": rel}
         elif cls == "ell_eccentric":
             if rng.random() < 0.6:
                 # a long thin ellipsoid whose tip lies inside the box (where the outward blur erodes the requested core)
@@ -686,7 +713,7 @@ def gen_shape(rng, cls, tier):
     elif fn == "cylinder":
         r = F(min(N[:2]) // 2) if case["r"] is None else F(case["r"])
         h = N[2] if case["h"] is None else case["h"]
-        exp = O.cylinder(N, c, r, h // 2)[0]
+        exp = O.cylinder(N, c, r, int(h // 2))[0]
     elif fn == "ellipsoid":
         rd = tuple(n // 2 for n in N) if case["radii"] is None else O.triple(case["radii"])
         exp = O.ellipsoid(N, c, rd)[0]
@@ -697,7 +724,7 @@ def gen_shape(rng, cls, tier):
         exp = None
     case["n_in"] = int(exp.sum()) if exp is not None else -1
     case["n_vox"] = int(np.prod(N))
-    case["summary"] = {k: case.get(k) for k in ("fn", "N", "centre", "centre_kind", "r", "h", "radii", "t", "calls", "size_fmt", "centre_fmt") if k in case}
+    case["summary"] = {k: case.get(k) for k in ("fn", "N", "centre", "centre_kind", "r", "h", "radii", "t", "calls", "size_fmt", "centre_fmt", "near") if k in case}
     return case
 
 
@@ -829,9 +856,44 @@ def gen_algebra(rng, cls, tier):
     return case
 
 
+def gen_history(rng, tier, i):
+    """three-step histories: the caller mutates an argument it owns in place between calls"""
+    if (i // len(CLASSES)) % 2 == 0:
+        N = _box(rng, small=True, cubic=rng.random() < 0.2)
+        dts = [str(rng.choice(BIN_DTYPES)) for _ in range(2)]
+        if rng.random() < 0.4:
+            dts[0] = "float64"
+        arrs = [_binary_shape(rng, N)[0].astype(dt) for dt in dts]
+        regions = []
+        for _ in range(2):
+            lo = [int(rng.integers(0, n - 2)) for n in N]
+            regions.append([(lo[a], int(rng.integers(lo[a] + 1, N[a] + 1))) for a in range(3)])
+        case = {"family": "history", "kind": "algebra", "N": N, "arrs": arrs, "regions": regions}
+        case["summary"] = {"kind": "algebra", "N": N, "dtypes": dts, "nnz": [int(np.count_nonzero(a)) for a in arrs], "regions": regions}
+        return case
+    fn = ["sphere", "cylinder", "ellipsoid", "s_shell"][(i // (2 * len(CLASSES))) % 4]
+    N = _box(rng, even=(fn == "ellipsoid"), small=True)
+    N = tuple(min(n, 44) for n in N)
+    c = tuple(int(rng.integers(1, n - 1)) for n in N)
+    steps = []
+    a = int(rng.integers(0, 3))
+    steps.append(("centre", a, 1 if c[a] + 1 < N[a] - 1 else -1))
+    steps.append(("size", int(rng.integers(0, 3)), 2))
+    steps.append(("radius", int(rng.integers(0, 3)), int(rng.choice([1, 2, 3]))))
+    case = {"family": "history", "kind": "shape", "fn": fn, "N": N, "centre": c, "r": _radius(rng, N, str(rng.choice(["medium", "large"]))),
+            "h": int(rng.integers(1, 2 * N[2])), "radii": tuple(_radius(rng, (n,), str(rng.choice(["medium", "large"]))) for n in N),
+            "t": 2, "steps": steps, "sigma": _sigma(rng)}
+    if fn == "s_shell":
+        case["r"] = max(case["r"], 2)
+    case["summary"] = {k: case[k] for k in ("kind", "fn", "N", "centre", "r", "h", "radii", "steps", "sigma")}
+    return case
+
+
 def gen(ctx, i, cls):
     rng = ctx.rng(i)
-    if cls == "named":
+    if cls == "history":
+        case = gen_history(rng, ctx.tier, i)
+    elif cls == "named":
         case = gen_named(rng, ctx.tier, i)
     elif cls.startswith("alg_"):
         case = gen_algebra(rng, cls, ctx.tier)
@@ -844,7 +906,7 @@ def gen(ctx, i, cls):
 def nontrivial(case):
     if case["family"] == "shape":
         return case["n_in"] == -1 or 0 < case["n_in"] < case["n_vox"]
-    if case["family"] == "named":
+    if case["family"] in ("named", "history"):
         return True
     return len(case["ents"]) >= 2 and case["partial_overlap"]
 
@@ -902,6 +964,16 @@ def run_shape(ctx, case):
     if hard is None:
         return
     size, centre = fmt_size(case["N"], case["size_fmt"]), fmt_centre(case["centre"], case["centre_fmt"])
+    if case.get("near"):
+        # the same solid as outer and as inner solid of a shell, and through the name-based generator
+        rd = np.array(case["radii"])
+        if rd.min() >= 3:
+            ctx.call("ellipsoid_shell_mask", cm.ellipsoid_shell_mask, size, 2, [int(v) for v in rd - 1], center=centre)
+        ctx.call("ellipsoid_shell_mask", cm.ellipsoid_shell_mask, size, 2, [int(v) for v in rd + 1], center=centre)
+        mo = max(case["near"]["offset"])
+        if mo <= 23:
+            n = min(48, 2 * mo + 2 + 2 * (case["i"] % 3))
+            ctx.call("generate_mask", cm.generate_mask, "ellipsoid_rx%d_ry%d_rz%d" % tuple(int(v) for v in rd), mask_size=max(6, n))
     if case["fn"] == "s_shell":
         r = min(case["N"]) // 2 if case["r"] is None else case["r"]
         ok1, a = ctx.call("spherical_mask(outer)", cm.spherical_mask, size, radius=r + case["t"] / 2, center=centre)
@@ -1038,13 +1110,185 @@ def run_algebra(ctx, case):
         os.remove(outp)
 
 
+def _all_ops(ctx, lst):
+    cm = ctx.cmk
+    for name, f in (("union", cm.union), ("intersection", cm.intersection), ("subtraction", cm.subtraction), ("difference", cm.difference)):
+        ctx.call(name, f, lst)
+
+
+def _flip(a, region):
+    sl = tuple(slice(lo, hi) for lo, hi in region)
+    a[sl] = ~a[sl] if a.dtype == bool else 1 - a[sl]
+
+
+def run_history(ctx, case):
+    """every call is judged by the call monitors against the values the arguments hold at that moment"""
+    cm = ctx.cmk
+    if case["kind"] == "algebra":
+        A, B = (a.copy() for a in case["arrs"])
+        _all_ops(ctx, [A, B])
+        _flip(A, case["regions"][0])                  # caller-owned first mask modified in place
+        _all_ops(ctx, [A, B])
+        _flip(B, case["regions"][1])
+        _all_ops(ctx, [A, B])
+        _all_ops(ctx, [B, A])
+        _all_ops(ctx, [A, A])                          # the same object twice / an exact duplicate
+        _all_ops(ctx, [A, A.copy(), B])
+        return
+    size, centre = np.array(case["N"], dtype=np.int64), np.array(case["centre"], dtype=np.int64)
+    radii = np.array(case["radii"], dtype=np.int64)
+    st = {"r": case["r"], "h": case["h"]}
+
+    def call(g, outwards=True):
+        fn = case["fn"]
+        if fn == "sphere":
+            return ctx.call("spherical_mask", cm.spherical_mask, size, radius=st["r"], center=centre, gaussian=g, gaussian_outwards=outwards)
+        if fn == "cylinder":
+            return ctx.call("cylindrical_mask", cm.cylindrical_mask, size, radius=st["r"], height=st["h"], center=centre, gaussian=g,
+                            gaussian_outwards=outwards)
+        if fn == "ellipsoid":
+            return ctx.call("ellipsoid_mask", cm.ellipsoid_mask, size, radii=radii, center=centre, gaussian=g, gaussian_outwards=outwards)
+        return ctx.call("spherical_shell_mask", cm.spherical_shell_mask, size, case["t"], radius=st["r"], center=centre, gaussian=g)
+
+    call(0)
+    for what, a, d in case["steps"]:
+        if what == "centre":
+            centre[a] += d
+        elif what == "size":
+            size[a] += d
+        else:
+            radii[a] += d
+            st["r"] += d
+            st["h"] += d
+        call(0)
+        call(case["sigma"], outwards=bool(a % 2))
+
+
 def run_case(ctx, case):
-    if case["family"] == "shape":
+    if case["family"] == "history":
+        run_history(ctx, case)
+    elif case["family"] == "shape":
         run_shape(ctx, case)
     elif case["family"] == "named":
         run_named(ctx, case)
     else:
         run_algebra(ctx, case)
+
+
+BLOCK_BOXES = [(8, 8, 8), (8, 8, 16), (16, 16, 16), (16, 16, 32), (32, 32, 32), (13, 15, 21), (33, 33, 33), (17, 17, 17), (31, 32, 33),
+               (33, 32, 31), (32, 33, 31), (19, 27, 6), (6, 19, 27), (6, 25, 41), (25, 41, 6), (48, 48, 48), (47, 48, 46), (15, 16, 17),
+               (16, 32, 48), (48, 32, 16), (33, 6, 6), (6, 33, 6), (6, 6, 33), (32, 8, 8), (34, 8, 8), (17, 8, 8), (16, 8, 8), (18, 8, 8)]
+
+
+def _modular_boxes():
+    """boxes whose total voxel count is 1 above a multiple of a power-of-two block (a flat blocked loop with an off-by-one bound
+    drops exactly the last voxel there): the two smallest boxes per block size"""
+    out = []
+    for blk in (64, 128, 256, 512):   # no box in 6..48 has a voxel count of 1 modulo 1024 or a larger power of two
+        found = []
+        for a in range(6, 49):
+            for b in range(a, 49):
+                for c in range(b, 49):
+                    if a * b * c > blk and (a * b * c) % blk == 1:
+                        found.append((a * b * c, (a, b, c)))
+        out += [t for _, t in sorted(found)[:2]]
+    return out
+
+
+BLOCK_BOXES += [b for b in _modular_boxes() if b not in BLOCK_BOXES]
+
+
+def _reach(c, n):
+    return max(int(c), int(n) - 1 - int(c))
+
+
+def _shape_battery(ctx, rng, N, c, a, soft):
+    """all shape functions on box N with centre c (None = default), sized so that the shape reaches the first and the last
+    plane of axis a (the tip exactly on the farther face, or up to 2 voxels more)"""
+    cm = ctx.cmk
+    n_calls = 0
+    cc = c if c is not None else tuple(m // 2 for m in N)
+    r = _reach(cc[a], N[a]) + int(rng.integers(0, 3))
+    big = max(N) + 2
+    even = all(m % 2 == 0 for m in N)
+    cen = None if c is None else [list(c), tuple(c), np.array(c)][int(rng.integers(0, 3))]
+    size = [list(N), tuple(N), np.array(N)][int(rng.integers(0, 3))]
+    ctx.call("spherical_mask", cm.spherical_mask, size, radius=r, center=cen)
+    ctx.call("spherical_shell_mask", cm.spherical_shell_mask, size, 2, radius=r - 1, center=cen)
+    if a < 2:
+        ctx.call("cylindrical_mask", cm.cylindrical_mask, size, radius=r, height=2 * N[2] + 1, center=cen)
+    else:
+        ctx.call("cylindrical_mask", cm.cylindrical_mask, size, radius=big, height=2 * r + int(rng.integers(0, 2)), center=cen)
+    n_calls += 3
+    if soft:
+        ctx.call("spherical_mask", cm.spherical_mask, size, radius=r, center=cen, gaussian=0.6)
+        ctx.call("cylindrical_mask", cm.cylindrical_mask, size, radius=r if a < 2 else big, height=2 * N[2] + 1 if a < 2 else 2 * r, center=cen,
+                 gaussian=0.6)
+        n_calls += 2
+    if even:
+        radii = [m + 2 for m in N]
+        radii[a] = r
+        ctx.call("ellipsoid_mask", cm.ellipsoid_mask, size, radii=radii, center=cen)
+        ctx.call("ellipsoid_shell_mask", cm.ellipsoid_shell_mask, size, 2, [v - 1 for v in radii], center=cen)
+        n_calls += 2
+        if soft:
+            ctx.call("ellipsoid_mask", cm.ellipsoid_mask, size, radii=radii, center=cen, gaussian=0.6, gaussian_outwards=bool(rng.integers(0, 2)))
+            n_calls += 1
+    return n_calls
+
+
+def _algebra_battery(ctx, rng, N):
+    A = (rng.random(N) < 0.5).astype([np.float64, bool, np.uint8, np.float32][int(rng.integers(0, 4))])
+    B = (rng.random(N) < 0.5).astype([np.float64, bool, np.int64][int(rng.integers(0, 3))])
+    _all_ops(ctx, [A, B])
+    return 4
+
+
+def sweep(ctx):
+    """every box size 6..48 on every axis (shapes reaching the first and last plane of that axis), block-boundary boxes
+    (2^k, 2^k +- 1 voxels per axis / per plane / in total), cubic boxes of every size through the name-based generator"""
+    cm = ctx.cmk
+    V = 8 if ctx.tier == "quick" else 24
+    n_calls = 0
+    for a in range(3):
+        for n in range(O.BOX_MIN, O.BOX_MAX + 1):
+            for v in range(V):
+                rng = ctx.rng(3000000 + ((a * 64 + n) * 64 + v))
+                if n % 2 == 0 and v % 4 != 3:
+                    N = [int(rng.choice([6, 8, 10, 12])) for _ in range(3)]
+                else:
+                    N = [int(rng.integers(6, 13)) for _ in range(3)]
+                N[a] = n
+                N = tuple(N)
+                kind = ["default", "corner", "face", "anywhere", "anywhere", "edge", "interior", "anywhere"][v % 8]
+                c = _centre(rng, N, kind)
+                n_calls += _shape_battery(ctx, rng, N, c, a, soft=(v % 3 == 0))
+                if v == 0:
+                    n_calls += _algebra_battery(ctx, rng, N)
+    ctx.extra["sweep: every size 6..48 on every axis x %d variants (sphere, shell, cylinder, ellipsoid/shell on even boxes) reaching both end planes: calls" % V] = n_calls
+    n_calls = 0
+    for k, N in enumerate(BLOCK_BOXES):
+        for v in range(4 if ctx.tier == "quick" else 10):
+            rng = ctx.rng(4000000 + k * 64 + v)
+            c = _centre(rng, N, ["default", "anywhere", "corner", "face"][v % 4])
+            n_calls += _shape_battery(ctx, rng, N, c, v % 3, soft=(v == 1))
+        n_calls += _algebra_battery(ctx, ctx.rng(4100000 + k), N)
+    ctx.extra["sweep: %d block-boundary boxes (2^k, 2^k+-1 per axis/plane/total) x all shape functions + set algebra: calls" % len(BLOCK_BOXES)] = n_calls
+    n_calls = 0
+    for n in range(O.BOX_MIN, O.BOX_MAX + 1):
+        names = ["sphere_r%d" % (n // 2 + 1), "sphere_r%d" % n, "cylinder_r%d_h%d" % (n // 2, n + 2), "cylinder_r%d_h%d" % (n, n - 1)]
+        for nm in names:
+            ctx.call("generate_mask", cm.generate_mask, nm, mask_size=n)
+        n_calls += len(names)
+        if n % 2 == 0:
+            ctx.call("generate_mask", cm.generate_mask, "ellipsoid_rx%d_ry%d_rz%d" % (n // 2, n, n // 2 + 1), mask_size=n)
+            ctx.call("generate_mask", cm.generate_mask, "s_shell_r%d_s2" % (n // 2 - 1), mask_size=n - 2)     # returned box: n
+            ctx.call("generate_mask", cm.generate_mask, "s_shell_r%d_s2" % n, mask_size=n - 2)
+            n_calls += 3
+            if n >= 8:
+                ctx.call("generate_mask", cm.generate_mask, "e_shell_rx%d_ry%d_rz%d_s2" % (n // 2, n, n // 2 - 1), mask_size=n)
+                n_calls += 1
+    ctx.extra["sweep: name-based generator on cubic boxes of every size 6..48: calls"] = n_calls
 
 
 # =================================================================================================
@@ -1076,3 +1320,4 @@ def extra(ctx):
             ctx.call("ellipsoid_mask", cm.ellipsoid_mask, N, radii=r3, center=c)
             n += 1
     ctx.extra["exhaustive ellipsoid: box (6,8,10), all %d centres x radii %s" % (int(np.prod(N)), rr)] = n
+    sweep(ctx)
